@@ -8,27 +8,35 @@
 (***************************************************************************)
 EXTENDS PartitionRingOps, TLC, Json
 
-CONSTANTS Mode,     \* "route" | "repl" | "multi"
-          NK, Gaps, \* key-class layout (abs.KeyClasses): classes 0..NK-1, Gaps are not token positions
-          N,        \* partitions 1..N
-          MaxTok,   \* tokens per existing partition: 1..MaxTok
-          NOwn,     \* owners 1..NOwn
-          IStates,  \* instance states explored
-          T         \* heartbeat timeout (s); ages explored: T-1, T, T+1
+CONSTANTS Modes,    \* subset of {"route", "repl", "multi"}: the universes enumerated in this run
+          NK, Gaps, \* route: key-class layout (abs.KeyClasses): classes 0..NK-1, Gaps are not token positions
+          NRoute,   \* route: partitions 1..NRoute
+          MaxTok,   \* route: tokens per existing partition: 1..MaxTok
+          NRepl, NOwnRepl, StatesRepl, AgesRepl,     \* repl: partitions, owners, instance states, heartbeat ages
+          NMulti, NOwnMulti, StatesMulti, AgesMulti, \* multi: the same for multi-partition owners
+          T         \* heartbeat timeout (s)
 
 Key    == 0..(NK - 1)
 TokPos == Key \ Gaps
-Pid    == 1..N
-OwnerI == 1..NOwn
 PState == {"P", "A", "I"}
+NMax    == IF NRoute > NRepl THEN (IF NRoute > NMulti THEN NRoute ELSE NMulti) ELSE (IF NRepl > NMulti THEN NRepl ELSE NMulti)
+NOwnMax == IF NOwnRepl > NOwnMulti THEN NOwnRepl ELSE NOwnMulti
+PidAll  == 1..NMax
+OwnerAll == 1..NOwnMax
 
-VARIABLES phase,    \* "seed" | "case"
+VARIABLES Mode,     \* which universe this case belongs to
+          phase,    \* "seed" | "case"
           own,      \* route: own[c] = partition owning the token at class c (0 = none)
           st,       \* state of partition p ("P" for a partition without tokens = not in the ring)
           ownerOf,  \* repl/multi: ownerOf[o] = partition owner o is registered for (0 = not registered)
           inst      \* repl/multi: inst[o] = [known, st, age, zone, ro, idx]
 
-vars == <<phase, own, st, ownerOf, inst>>
+vars == <<Mode, phase, own, st, ownerOf, inst>>
+
+N      == CASE Mode = "route" -> NRoute [] Mode = "repl" -> NRepl [] Mode = "multi" -> NMulti
+NOwn   == IF Mode = "multi" THEN NOwnMulti ELSE NOwnRepl
+Pid    == 1..N
+OwnerI == 1..NOwn
 
 Toks(p)  == {c \in TokPos : own[c] = p}
 Present  == {p \in Pid : Toks(p) # {}}
@@ -39,26 +47,27 @@ Unknown(o) == [known |-> FALSE, st |-> "LEFT", age |-> 0, zone |-> 0, ro |-> FAL
 Unk == [st |-> "UNK", age |-> 0, zone |-> 0, ro |-> FALSE, idx |-> 0]
 Choice ==      \* what the instance ring may say about a registered owner (Unk: it does not know it)
     (IF Mode = "multi"
-     THEN [st : IStates, age : {T, T + 1}, zone : {1, 2}, ro : BOOLEAN, idx : {1, 2}]
-     ELSE [st : IStates, age : {T - 1, T, T + 1}, zone : {1, 2}, ro : {FALSE}, idx : {0}]) \cup {Unk}
+     THEN [st : StatesMulti, age : AgesMulti, zone : {1, 2}, ro : BOOLEAN, idx : {1, 2}]
+     ELSE [st : StatesRepl, age : AgesRepl, zone : {1, 2}, ro : {FALSE}, idx : {0}]) \cup {Unk}
 InstOf(c, o) == IF c.st = "UNK" THEN Unknown(o)
                 ELSE [known |-> TRUE, st |-> c.st, age |-> c.age, zone |-> c.zone, ro |-> c.ro,
                       idx |-> IF Mode = "multi" THEN c.idx ELSE o]
 
 NoRing  == [c \in TokPos |-> 0]
-NoSt    == [p \in Pid |-> "P"]
-NoOwner == [o \in OwnerI |-> 0]
-NoInst  == [o \in OwnerI |-> Unknown(o)]
+NoSt    == [p \in PidAll |-> "P"]
+NoOwner == [o \in OwnerAll |-> 0]
+NoInst  == [o \in OwnerAll |-> Unknown(o)]
 
 (* Seeds: every token layout (route) / every registration vector (repl, multi).    *)
-Init == /\ phase = "seed"
+Init == /\ Mode \in Modes
+        /\ phase = "seed"
         /\ IF Mode = "route"
            THEN /\ own \in [TokPos -> 0..N]
                 /\ Present # {}
                 /\ \A p \in Pid : Cardinality(Toks(p)) <= MaxTok
                 /\ ownerOf = NoOwner
            ELSE /\ own = NoRing
-                /\ ownerOf \in [OwnerI -> 0..N]
+                /\ ownerOf \in {f \in [OwnerAll -> 0..N] : \A o \in OwnerAll \ OwnerI : f[o] = 0}
         /\ st = NoSt
         /\ inst = NoInst
 
@@ -66,11 +75,12 @@ Init == /\ phase = "seed"
 (* registered owners (an unregistered owner's instance is irrelevant).              *)
 Next == /\ phase = "seed"
         /\ phase' = "case"
+        /\ UNCHANGED Mode
         /\ IF Mode = "route"
-           THEN /\ st' \in {s \in [Pid -> PState] : \A p \in Pid \ Present : s[p] = "P"}
+           THEN /\ st' \in {s \in [PidAll -> PState] : \A p \in PidAll \ Present : s[p] = "P"}
                 /\ UNCHANGED <<own, ownerOf, inst>>
            ELSE /\ \E c \in [{o \in OwnerI : ownerOf[o] # 0} -> Choice] :
-                     inst' = [o \in OwnerI |-> IF o \in DOMAIN c THEN InstOf(c[o], o) ELSE Unknown(o)]
+                     inst' = [o \in OwnerAll |-> IF o \in DOMAIN c THEN InstOf(c[o], o) ELSE Unknown(o)]
                 /\ UNCHANGED <<own, st, ownerOf>>
 
 Spec == Init /\ [][Next]_vars
@@ -105,16 +115,19 @@ EmitRoute ==
     LET keys == [i \in 1..NK |-> i - 1]
         kbp  == KeysByPartition(TokPid, ActSet, keys)
     IN PrintT(ToJson([
+        mode  |-> Mode,
         own   |-> [j \in 1..NK |-> IF (j - 1) \in Gaps THEN -1 ELSE own[j - 1]],
-        st    |-> st,
+        st    |-> [p \in Pid |-> st[p]],
         route |-> [j \in 1..NK |-> ActivePartition(TokPid, ActSet, j - 1)],
         kbpErr |-> kbp.err,
         kbp   |-> {[p |-> p, classes |-> {i - 1 : i \in kbp.groups[p]}] : p \in DOMAIN kbp.groups}]))
 
 EmitRepl ==
     PrintT(ToJson([
-        ownerOf |-> ownerOf,
-        inst    |-> inst,
+        mode    |-> Mode,
+        np      |-> N,
+        ownerOf |-> [o \in OwnerI |-> ownerOf[o]],
+        inst    |-> [o \in OwnerI |-> inst[o]],
         res     |-> [op \in Ops |->
                       LET r == ReplicationSets(Pid, ownerOf, inst, op, T) IN
                       [err |-> r.err,
@@ -125,8 +138,10 @@ EmitRepl ==
 
 EmitMulti ==
     PrintT(ToJson([
-        ownerOf |-> ownerOf,
-        inst    |-> inst,
+        mode    |-> Mode,
+        np      |-> N,
+        ownerOf |-> [o \in OwnerI |-> ownerOf[o]],
+        inst    |-> [o \in OwnerI |-> inst[o]],
         res     |-> [op \in Ops |->
                       {LET r == MultiReplicationSet(ownerOf, inst, p, op, T) IN
                        [p |-> p, err |-> r.err,
